@@ -179,4 +179,12 @@ theorem C16_wiring :
     Sso.Generated.skel_auth_sf_do =
       ["call:Sprintf", "call:Do", "if{", "}", "return"] := by decide
 
+/-- Tie (T1), third wave: the constructors and option functions that hand configured values to the components this property
+speaks about (proxy_newProvider, auth_newProvider). -/
+theorem C16_wiring3 :
+    Sso.Generated.skel_proxy_newProvider =
+      ["call:Parse", "if{", "return", "}", "if{", "call:Parse", "if{", "return", "}", "}", "call:New", "call:NewSingleFlightProvider", "return"] ∧
+    Sso.Generated.skel_auth_newProvider =
+      ["switch{", "case providers.GoogleProviderName{", "call:NewGoogleProvider", "if{", "return", "}", "call:NewFillCache", "store:googleProvider.GroupsCache", "call:NewSingleFlightProvider", "}", "case providers.OktaProviderName{", "call:NewOktaProvider", "if{", "return", "}", "call:NewGroupCache", "call:NewSingleFlightProvider", "}", "case providers.AmazonCognitoProviderName{", "call:NewAmazonCognitoProvider", "if{", "return", "}", "call:NewFillCache", "store:amazonCognitoProvider.GroupsCache", "call:NewSingleFlightProvider", "}", "case \"test\"{", "call:NewTestProvider", "return", "}", "default{", "call:Errorf", "return", "}", "}", "return"] := by decide
+
 end Sso.SfWrappers
